@@ -1,0 +1,30 @@
+//! Verification seam (only built with `--cfg watchexec_verif`): spawn interposer.
+//!
+//! When an interposer is installed on the current thread, [`CommandState::spawn`] asks it for the
+//! child instead of spawning a real process. With none installed, behaviour is unchanged.
+#![allow(missing_docs, clippy::type_complexity)]
+
+use std::{cell::RefCell, io::Result, sync::Arc};
+
+use process_wrap::tokio::{TokioChildWrapper, TokioCommandWrap};
+
+use crate::command::Command;
+
+pub type SpawnInterposer =
+	Box<dyn FnMut(&Arc<Command>, &mut TokioCommandWrap) -> Result<Box<dyn TokioChildWrapper>>>;
+
+thread_local! {
+	static INTERPOSER: RefCell<Option<SpawnInterposer>> = const { RefCell::new(None) };
+}
+
+/// Install (or remove) the spawn interposer of the current thread.
+pub fn set_spawn_interposer(f: Option<SpawnInterposer>) {
+	INTERPOSER.with(|i| *i.borrow_mut() = f);
+}
+
+pub(crate) fn interpose_spawn(
+	command: &Arc<Command>,
+	spawnable: &mut TokioCommandWrap,
+) -> Option<Result<Box<dyn TokioChildWrapper>>> {
+	INTERPOSER.with(|i| i.borrow_mut().as_mut().map(|f| f(command, spawnable)))
+}
